@@ -198,7 +198,8 @@ func judgeC01(c *Check, p *plan.Plan, pr *ProcResult) *Judged {
 			j.v(p, "C01", "malformed", oo.Task, oo.Op, "malformed:node:"+r.NodeShape, "Result.Node is "+r.NodeShape+" during "+describeOp(p, oo.Task, oo.Op))
 		}
 		ex := expectFor(p, op, c.env.OpenSeam == "present")
-		if ex.Deadline > 0 && oo.SimEnd-oo.SimStart > ex.Deadline {
+		// time the calling thread itself was descheduled (injected clock stalls) is not the client's to bound
+		if ex.Deadline > 0 && oo.SimEnd-oo.SimStart-oo.StallNs > ex.Deadline {
 			j.v(p, "C01", "sim-deadline", oo.Task, oo.Op, "sim-deadline:"+op.Op,
 				fmt.Sprintf("ApplyForURL with timeout %dms returned after %.3fs of simulated time", op.TimeoutMs, float64(oo.SimEnd-oo.SimStart)/1e9))
 		}
